@@ -4,7 +4,7 @@ CONSTANTS
   Head0 = 5
   Start = 3
   Batches = {2,3}
-  Follows = {0,1}
+  Follows = {1}
   Kinds = {"none","one","two","rm","mix"}
   KindSample = {}
   LowKind = "two"
